@@ -47,13 +47,18 @@ MERGED = ["read", "rows:DataFrame", "rows:Dicts", "rows:Records", "merge_readers
 _POOL, _DIR = {}, [None]  # per process: files already written, and where
 
 
-def input_path(fmt, j, seq):
-    """File of input j with the given score sequence; written once per worker process."""
-    key = (fmt, j, tuple(seq), M.FINE)
+def input_path(fmt, j, seq, layout=None):
+    """File of input j with the given score sequence; written once per worker process.
+    layout "dirs": every input lies in a directory of its own under the SAME file name (one result file per run)."""
+    key = (fmt, j, tuple(seq), M.FINE, layout)
     if key not in _POOL:
         if _DIR[0] is None:
             _DIR[0] = worker_scratch().sub("pool")
-        p = _DIR[0] / f"in{j}_{''.join(map(str, seq))}{('_' + str(M.FINE)) if M.FINE else ''}.{fmt}"
+        stem = f"in{j}_{''.join(map(str, seq))}{('_' + str(M.FINE)) if M.FINE else ''}"
+        p = _DIR[0] / f"{stem}.{fmt}"
+        if layout == "dirs":
+            (_DIR[0] / ("run_" + stem)).mkdir(exist_ok=True)
+            p = _DIR[0] / ("run_" + stem) / f"scores.{fmt}"
         rows = M.rows_of([()] * j + [seq])[j]
         if fmt == "parquet":
             tbl = pa.table({c: pa.array([r[k] for r in rows], PA[k]) for k, c in enumerate(M.COLS)})
@@ -83,7 +88,7 @@ def observe(case):
     from mokapot.tabular_data import TableType, TabularDataReader
 
     impl, desc, c = case["impl"], case["desc"], case["chunk"]
-    paths = [input_path(case["fmt"], j, seq) for j, seq in enumerate(case["inputs"])]
+    paths = [input_path(case["fmt"], j, seq, case.get("layout")) for j, seq in enumerate(case["inputs"])]
     out = []
     try:
         if impl == "merge_sort":
@@ -185,6 +190,13 @@ def explore(inputs, desc, negative, acc):
                              outcome=stable_hash([cls_f, [r[0] for r in out_f]]))
                     acc.count("fine_score_levels" if fine is True else "integral_and_fractional_levels")
                 M.FINE = False
+            if len(inputs) >= 2 and c <= 2 and n_rows_of(inputs) <= 4 and impl in ("merge_sort", "merge_readers", "read"):
+                # the inputs carry the same file name in different directories
+                case_d = dict(case, layout="dirs")
+                cls_d, out_d = check_case(case_d, acc)
+                acc.case(key=(impl, fmt, desc, inputs, c, oc, negative, "dirs"), nontrivial=True, cls=cls_d,
+                         outcome=stable_hash([cls_d, out_d]))
+                acc.count("same_name_in_different_directories")
             if impl == "merge_sort" and c == 2 and n_rows_of(inputs) <= 4:
                 # history: the same merge right after another merge was abandoned after 1 / 2 rows
                 for k in (1, 2):
